@@ -29,6 +29,7 @@ import (
 	"path/filepath"
 	"reflect"
 	"runtime"
+	"runtime/debug"
 	"sort"
 	"strings"
 	"sync"
@@ -1083,7 +1084,23 @@ func exec(run *core.Run, pl interface{}) {
 		cl, sv := c.Net.Pipe(pol)
 		done := make(chan interface{}, 1)
 		go func() {
-			defer func() { done <- recover() }()
+			defer func() {
+				r := recover()
+				if r != nil {
+					// where it panicked: the frames of the repository, top down
+					var fr []string
+					for _, l := range strings.Split(string(debug.Stack()), "\n") {
+						if strings.Contains(l, "/repo/") {
+							fr = append(fr, strings.TrimSpace(l))
+						}
+					}
+					if len(fr) > 8 {
+						fr = fr[:8]
+					}
+					r = fmt.Sprintf("%v [%s]", r, strings.Join(fr, " <- "))
+				}
+				done <- r
+			}()
 			n2.Svc.VerifHandleConn(sv)
 		}()
 		cl.Write(stream[1:]) // the multiplexer strips the first byte
